@@ -649,8 +649,10 @@ def run(ctx):
     r16j(ctx)
     r16k(ctx)
     # search positions index the text the accessor returns: it has one definition (own text, then every child's str() and tail) — shared with C05
-    from .c05 import r05d
+    from .c05 import r05c, r05d
     r05d(ctx)
+    # replace(formatted=True) re-encodes the replacement through append_plain_text: the characters its splitter isolates must be the ones the encoder arms handle (shared with C05)
+    r05c(ctx)
 
 
 from ..selftest import Seed, unparse_seed  # noqa: E402
